@@ -107,11 +107,15 @@ def call_update(param, rg: dict, value) -> None:
         param.update(start=periods.instant(rg["start"]), value=value)
 
 
-def get_param(root, path):
+def get_param(root, path, by_attribute=False):
+    """The parameter object at `path`: through the groups' `children` maps, or - the way
+    rule writers reach it - by attribute (`parameters.g.p1`); the two are one tree."""
     node = root
     for part in path:
         if isinstance(part, int):
             node = node.brackets[part]
+        elif by_attribute:
+            node = getattr(node, part)
         else:
             node = node.children[part] if isinstance(node, ParameterNode) and part in node.children else getattr(node, part)
     return node
@@ -162,6 +166,13 @@ def c06_generate(seed: int, tier: str) -> dict:
         ops.append({"actor": "W", "do": ["update", list(path), rg, value]})
         a, b = range_bounds(rg)
         dates[path] = sorted(set(dates[path]) | {a} | ({PW.shift(b, 1)} if b else set()))
+    if chance(orr, 0.3):
+        # a child offered under a name the group already has: refused (ValueError), the
+        # caller carries on - and the group is as before
+        plain = [tuple(p) for p, _ in leaves if len(p) >= 1 and not isinstance(p[-1], int) and p[0] not in ("sc",) and "threshold" not in p and "rate" not in p]
+        if plain:
+            path = pick(orr, plain)
+            ops.insert(orr.randrange(len(ops) + 1), {"actor": "W", "do": ["add_existing", list(path), PW.gen_leaf(orr)["values"]]})
     if chance(orr, 0.4):
         # a copy of the whole tree is taken mid-way (ParameterNode.clone) and both
         # copies go on being updated: each keeps following its own history
@@ -202,7 +213,7 @@ def c06_check_all(res, step, root, tree, models, leaves, dates, what):
     """C06.value / C06.order / C06.group / C06.scale over every leaf at every probe date."""
     for path, _ in leaves:
         path = tuple(path)
-        param = get_param(root, path)
+        param = get_param(root, path, by_attribute=(len(dates) + len(path)) % 2 == 1)
         m = models[path]
         res.count("clause:C06.order")
         instants = [v.instant_str for v in param.values_list]
@@ -295,11 +306,28 @@ def c06_run(scn) -> Result:
                     res.count("probe:tree_cloned_mid_way")
                     H.add("W", "clone", [])
                 continue
-            _, path, rg, value = op["do"]
-            path = tuple(path)
             side = op.get("side", 0) % len(sides)
             root, models = sides[side]
-            param = get_param(root, path)
+            if op["do"][0] == "add_existing":
+                _, path, values = op["do"]
+                parent = get_param(root, path[:-1]) if len(path) > 1 else root
+                res.count("probe:child_offered_under_a_taken_name")
+                try:
+                    parent.add_child(path[-1], Parameter(".".join(path), PW.leaf_data(values)))
+                    outcome = "accepted"
+                except ValueError:
+                    outcome = "refused"
+                H.add("W", "add_existing", [list(path)], outcome)
+                if outcome == "refused":
+                    c06_check_all(res, step, root, tree, models, leaves, probe_dates(models, root, leaves, prng), op["do"][:2])
+                    continue
+                res.violate("C06.group", step, op=op["do"][:2], what="a child offered under a name the group already has was not refused")
+                break
+            _, path, rg, value = op["do"]
+            path = tuple(path)
+            # (updates and reads reach the parameter by attribute half of the time)
+            by_attr = (step + len(path)) % 2 == 1
+            param = get_param(root, path, by_attr)
             m = models[path]
             a, b = range_bounds(rg)
             if b is not None and b < a:
@@ -360,7 +388,7 @@ def gen_mods(rng, tree, n=None, p_inf=0.0):
     leaves = [p for p in PW.leaf_paths(tree)]
     mods = []
     for _ in range(n or rng.randint(1, 3)):
-        kind = weighted(rng, [("update", 7), ("bracket", 2), ("add_child", 1.5), ("replace_child", 1.5)])
+        kind = weighted(rng, [("update", 7), ("bracket", 2), ("add_child", 1.5), ("replace_child", 1.5), ("add_existing", 1), ("merge", 1)])
         if kind == "bracket":
             # a bracket's rate or threshold edited in place (the number of brackets stays)
             i = rng.randrange(len(tree["sc"]["brackets"]))
@@ -378,6 +406,21 @@ def gen_mods(rng, tree, n=None, p_inf=0.0):
             mods.append(["update", list(path), gen_range(rng, dates), value])
         elif kind == "add_child":
             mods.append(["add_child", pick(rng, [[], ["g"], ["g", "h"]]), f"new{rng.randrange(1000)}", PW.gen_leaf(rng)])
+        elif kind == "add_existing":
+            # a child offered under a name that is taken: refused, the modifier carries on
+            path = pick(rng, [p for p in leaves if p[0] in ("p0", "g", "zones")])
+            mods.append(["add_existing", list(path), PW.gen_leaf(rng, always=True, allow_null=False)])
+            dates = sorted(d for d, v in PW.spec_at(tree, path)["values"] if v != "expected")
+            mods.append(["update", list(path), gen_range(rng, dates), round(rng.uniform(0, 10), 2)])
+        elif kind == "merge":
+            # a node of overrides merged into a group: new names are added, a taken name is
+            # refused (ValueError) and the modifier carries on
+            parent = pick(rng, [["g"], ["g", "h"], ["zones"]])
+            taken = [p[-1] for p in leaves if list(p[:-1]) == parent]
+            names = [f"mg{rng.randrange(1000)}"] + ([pick(rng, taken)] if taken else [])
+            if chance(rng, 0.5):
+                names.reverse()
+            mods.append(["merge", parent, {n: PW.gen_leaf(rng, always=True, allow_null=False) for n in names}])
         else:
             path = pick(rng, [p for p in leaves if p[0] in ("p0", "g")])
             mods.append(["replace_child", list(path), PW.gen_leaf(rng)])
@@ -535,6 +578,19 @@ def apply_mods(parameters, mods):
             parent = get_param(parameters, m[1]) if m[1] else parameters
             if m[2] not in parent.children:
                 parent.add_child(m[2], Parameter(f"{'.'.join(m[1])}.{m[2]}".lstrip("."), PW.leaf_data(m[3]["values"])))
+        elif m[0] == "add_existing":
+            parent = get_param(parameters, m[1][:-1]) if len(m[1]) > 1 else parameters
+            try:
+                parent.add_child(m[1][-1], Parameter(".".join(m[1]), PW.leaf_data(m[2]["values"])))
+            except ValueError:
+                pass
+        elif m[0] == "merge":
+            parent = get_param(parameters, m[1])
+            other = ParameterNode(".".join(m[1]), data={n: PW.leaf_data(leaf["values"]) for n, leaf in m[2].items()})
+            try:
+                parent.merge(other)
+            except ValueError:
+                pass
         elif m[0] == "replace_child":
             parent = get_param(parameters, m[1][:-1]) if len(m[1]) > 1 else parameters
             child = Parameter(".".join(m[1]), PW.leaf_data(m[2]["values"]))
